@@ -1116,8 +1116,15 @@ func (g *zzRegistry) LookupInvoice(_ context.Context, h lntypes.Hash) (invoices.
 	}
 	switch g.inc.w.m.know[no] {
 	case zzKnowInvoice:
+		// The preimage is what matters to the arbitrator, whatever state
+		// the invoice is in: a regular invoice is settled the moment its
+		// HTLC is accepted, long before the settle is exchanged with the
+		// peer (the usual state here); a hold invoice the user settled is
+		// too. The state is fixed per scenario and hash, without a draw.
 		p := zzPreimageOf(no)
-		return invoices.Invoice{Terms: invoices.ContractTerm{PaymentPreimage: &p}}, nil
+		st := []invoices.ContractState{invoices.ContractSettled, invoices.ContractOpen,
+			invoices.ContractAccepted}[(no+int(g.inc.w.m.startH))%3]
+		return invoices.Invoice{State: st, Terms: invoices.ContractTerm{PaymentPreimage: &p}}, nil
 	case zzKnowHodl:
 		return invoices.Invoice{}, nil
 	}
